@@ -31,6 +31,7 @@ type VerifDriver interface {
 	Pass(n int64)    // n time units pass, the worker does not look at the clock
 	Tick()           // the worker's ticker arm with the current virtual time
 	GuardHeld() bool // the mutex is held by somebody right now
+	TrySize() (n int, ok bool) // len(refer) if the mutex is free right now (never blocks)
 	Probe() (nodes []VerifNode, consistent bool)
 }
 
@@ -89,6 +90,14 @@ func (v *VerifWheel) GuardHeld() bool {
 		return false
 	}
 	return true
+}
+
+func (v *VerifWheel) TrySize() (int, bool) {
+	if v.t.guard.TryLock() {
+		defer v.t.guard.Unlock()
+		return len(v.t.refer), true
+	}
+	return 0, false
 }
 
 func (v *VerifWheel) Probe() (nodes []VerifNode, consistent bool) {
@@ -174,6 +183,14 @@ func (v *VerifHeap) GuardHeld() bool {
 		return false
 	}
 	return true
+}
+
+func (v *VerifHeap) TrySize() (int, bool) {
+	if v.s.guard.TryLock() {
+		defer v.s.guard.Unlock()
+		return len(v.s.refer), true
+	}
+	return 0, false
 }
 
 func (v *VerifHeap) Probe() (nodes []VerifNode, consistent bool) {
